@@ -1135,7 +1135,7 @@ class Tifa(TifaCore, ast.NodeVisitor):
     def visit_Tuple(self, node) -> TupleType:
         # Fun fact, it's impossible to make a literal empty set
         if not node.elts:
-            return TupleType(True)
+            return TupleType()
 
         # All literal keys
         return TupleType([self.visit(v) for v in node.elts])
